@@ -905,6 +905,56 @@ def part_C(chk, binary, scratch, res_broken):
                         t.add(os.path.join(edir, stem + ".incn"), body, [i[3] for i in imps])
                         cases.append({"tree": t, "layout": layout, "kind": kind, "label": label, "imps": imps, "uses": uses, "refs": refs,
                                       "edir": edir, "stem": stem, "xpub": xpub, "ypub": ypub, "mfile": mfile})
+    # a private item of m whose NAME is also a real definition somewhere else in the checker's flat namespace:
+    # (a) a builtin, (b) a pub item of another directly imported module, (c) a pub item of a module loaded only
+    # transitively, (d) a declaration of the importing file itself (before / after the import), (e) an import alias.
+    # The import must be rejected with the diagnostic that names the item, in the CLI and in the LSP.
+    SHK = {  # kind: (builtin name, ordinary name, decl of the item in m, decl of the partner (same name) elsewhere)
+        "fn": ("len", "fx", lambda n, pub: ("fn", n, pub, ()), lambda n: ("fn", n, True, ())),
+        "model": ("List", "Mx", lambda n, pub: ("model", n, pub, ()), lambda n: ("model", n, True, ())),
+        "enum": ("Option", "Ex", lambda n, pub: ("enum", n, pub, ("Va", "Wa")), lambda n: ("enum", n, True, ("Vb", "Wb"))),
+        "variant": ("Ok", "Vx", lambda n, pub: ("enum", "Em", pub, (n, "Wm")), lambda n: ("enum", "Eo", True, (n, "Wo"))),
+        "trait": ("Debug", "Tx", lambda n, pub: ("trait", n, pub, ()), lambda n: ("trait", n, True, ())),
+        "const": ("range", "cx", lambda n, pub: ("const", n, pub, ()), lambda n: ("fn", n, True, ())),
+    }
+    for skind, (bname, oname, mk_item, mk_partner) in SHK.items():
+        for src in ("a", "b", "c", "d1", "d2", "e1", "e2"):
+            for xpub in ((False, True) if src in ("a", "b") else (False,)):
+                t = Tree(scratch, "v%d" % k)
+                k += 1
+                trees.append(t)
+                xn = bname if src == "a" else oname
+                item = mk_item(xn, xpub)
+                mdecls = [item, ("fn", "fy", True, ())]
+                partner = mk_partner(xn)
+                odecls = [partner, ("fn", "oo", True, ())]
+                m_imports = ["from o import oo"] if src == "c" else []
+                t.add("m.incn", "\n".join(decl_text(*d) for d in mdecls), m_imports)
+                t.decls = {"m.incn": mdecls}
+                if src in ("b", "c", "e1", "e2"):
+                    t.add("o.incn", "\n".join(decl_text(*d) for d in (odecls if src in ("b", "c") else [("fn", "oo", True, ())])))
+                    t.decls["o.incn"] = odecls if src in ("b", "c") else [("fn", "oo", True, ())]
+                own_decls = [partner] if src in ("d1", "d2") else []
+                pre = {"b": [(("F", False, 0, ["o"]), [("oo", None)], None, "from o import oo")],
+                       "e1": [(("F", False, 0, ["o"]), [("oo", xn)], None, "from o import oo as %s" % xn)],
+                       "e2": [(("M", False, 0, ["o"]), [], xn, "import o as %s" % xn)]}.get(src, [])
+                forms = [("shadow from-x", [(xn, None)]), ("shadow from-x-as", [(xn, "zal")]), ("shadow from-y,x", [("fy", None), (xn, None)])]
+                for j, (lab, items) in enumerate(forms):
+                    txt = "from m import " + ", ".join(n + (" as " + a if a else "") for n, a in items)
+                    imps = pre + [(("F", False, 0, ["m"]), items, None, txt)]
+                    stem = "zq%d" % j
+                    owntxt = "".join(decl_text(*d) + "\n" for d in own_decls)
+                    mainfn = "def main() -> None:\n    pass\n"
+                    if src == "d1":      # the file's own declaration stands BEFORE the import statement
+                        t.add(stem + ".incn", owntxt + "\n".join(i[3] for i in imps) + "\n" + mainfn)
+                    else:
+                        t.add(stem + ".incn", owntxt + mainfn, [i[3] for i in imps])
+                    cases.append({"tree": t, "layout": "shadow-" + src, "kind": skind, "label": "%s (%s, collides with %s)" % (lab, skind, {
+                                      "a": "a builtin", "b": "a pub item of another imported module", "c": "a pub item of a transitively loaded module",
+                                      "d1": "a declaration of the importing file (before the import)", "d2": "a declaration of the importing file (after the import)",
+                                      "e1": "a `from` import alias", "e2": "an `import .. as` alias"}[src]),
+                                  "imps": imps, "uses": [], "refs": [(xn, xpub)], "edir": "", "stem": stem, "xpub": xpub, "ypub": True, "mfile": "m.incn",
+                                  "own_decls": own_decls, "must_name": None if xpub else xn})
     # two loaded modules whose names (segments joined by `_`) coincide: `m` and `..m`, `a_b` and `a.b`
     for cname, f1, f2, i1, i2, edir in (("samename", "sub/m.incn", "m.incn", (False, 0, ["m"]), (False, 1, ["m"]), "sub"),
                                         ("underscore", "a_b.incn", "a/b.incn", (False, 0, ["a_b"]), (False, 0, ["a", "b"]), "")):
@@ -1017,7 +1067,7 @@ def part_C(chk, binary, scratch, res_broken):
         imps_t = "[" + "; ".join("(VI %s [%s] %s)" % (imp_term_c(rec), "; ".join("(%d, %s)" % (code(nm), "Some %d" % code(a) if a else "None") for nm, a in items),
                                                       "(Some %d)" % code(al) if al else "None") for rec, items, al, _ in c["imps"]) + "]"
         uses_t = "[" + "; ".join(("UName %d" % code(u[1])) if u[0] == "N" else ("%s %d %d" % ("UQual" if u[0] == "Q" else "UField", code(u[1][0]), code(u[1][1]))) for u in c["uses"]) + "]"
-        own = "[D %d false DFn]" % code("main")
+        own = "[" + "; ".join(["D %d false DFn" % code("main")] + [decl_term(*d)[1:-1] for d in c.get("own_decls", [])]) + "]"
         terms.append("(run_check %s %s %s %s, run_check %s %s %s %s)" % (deps_term(cli_deps), own, imps_t, uses_t, deps_term(lsp_deps), own, imps_t, uses_t))
         tmeta.append(n_)
         real_cli = diag_canon(o_chk[5:].split("||")) if o_chk.startswith("FAIL ") else ([] if o_chk == "PASS" else [["other", o_chk[:200]]])
@@ -1060,6 +1110,8 @@ def part_C(chk, binary, scratch, res_broken):
         for side, real in (("cli", real_cli), ("lsp", real_lsp)):
             verdict = "reject" if real else "accept"
             dist[key + "/" + side + ":" + verdict] = dist.get(key + "/" + side + ":" + verdict, 0) + 1
+            if c.get("must_name") and real and [1, code(c["must_name"])] not in real:
+                fails.append(dict(desc, why="%s rejects the program but no diagnostic names the imported non-pub item `%s`" % (side, c["must_name"]), diagnostics=real))
             if private_ref and not real:
                 cls = None
                 if c["label"].startswith("import-m::x"):
